@@ -199,6 +199,8 @@ def run_stream(profile_name, seeds, jobs=None, keep=True, chunk=8):
     jobs = jobs or min(16, os.cpu_count() or 1)
     if profile_name.startswith("holes"):
         chunk = 2        # few, long histories: spread them over the workers
+    if profile_name.startswith("scale-"):
+        chunk = 1
     tasks = [(seeds[i:i + chunk], profile_name, keep) for i in range(0, len(seeds), chunk)]
     if jobs == 1 or len(tasks) == 1:
         res = [_worker(t) for t in tasks]
@@ -222,12 +224,14 @@ def replay(cfg, events, seed=0, quiesced=False):
     return r
 
 
-def shrink(cfg, events, pred, seed=0, budget=150):
-    """delta debugging over events: smallest sub-history for which pred(result) holds"""
+def shrink(cfg, events, pred, seed=0, budget=150, deadline=None):
+    """delta debugging over events: smallest sub-history for which pred(result) holds
+    (at most `budget` replays, and none started after `deadline`)"""
     cur = list(events)
     n = 2
     tries = 0
-    while len(cur) >= 2 and tries < budget:
+    late = lambda: deadline is not None and time.time() > deadline
+    while len(cur) >= 2 and tries < budget and not late():
         size = max(1, len(cur) // n)
         reduced = False
         for start in range(0, len(cur), size):
@@ -244,7 +248,7 @@ def shrink(cfg, events, pred, seed=0, budget=150):
                 n = max(n - 1, 2)
                 reduced = True
                 break
-            if tries >= budget:
+            if tries >= budget or late():
                 break
         if not reduced:
             if size == 1:
